@@ -176,3 +176,60 @@ def run_events(trace_file, run):
             if j.get("run") == run:
                 out.append(j)
     return out
+
+
+def gen_module(base, expr="Cases"):
+    return ("---- MODULE Gen%s ----\nEXTENDS %s, GenCases\nASSUME WriteCases(%s)\n====\n" % (base, base, expr))
+
+
+def stateless_trace_module(base, chk="Chk"):
+    """Trace module for a specification without variables: replays observed
+    outcome records through base!Chk and accumulates the reasons."""
+    return """---- MODULE Trace%(b)s ----
+EXTENDS %(b)s, TLC, Json, IOUtils, SequencesExt
+VARIABLES l, viol, done
+Trace == ndJsonDeserialize(IOEnv.VERIF_TRACE)
+TInit == l = 1 /\\ viol = <<>> /\\ done = FALSE
+Step == /\\ l <= Len(Trace) /\\ l' = l + 1 /\\ done' = done
+        /\\ LET o == Trace[l]
+               S == %(c)s(o) IN
+             viol' = IF S = {} \\/ Len(viol) >= 5000 THEN viol
+                     ELSE viol \\o SetToSeq({[l |-> l, why |-> w, case |-> o] : w \\in S})
+Finish == /\\ l = Len(Trace) + 1 /\\ ~done /\\ done' = TRUE
+          /\\ JsonSerialize(IOEnv.VERIF_OUT, [consumed |-> l - 1, bad |-> 0, viol |-> viol])
+          /\\ UNCHANGED <<l, viol>>
+TraceSpec == TInit /\\ [][Step \\/ Finish]_<<l, viol, done>>
+====
+""" % dict(b=base, c=chk)
+
+
+def gen_cases(scratch, base, expr="Cases", timeout=600, consts=None):
+    """B-gen for the tabular specifications: TLC enumerates base!Cases."""
+    out = scratch.path("cases-%s.ndjson" % base)
+    cfg = "SPECIFICATION GSpec\n"
+    if consts:
+        cfg += "CONSTANTS\n" + "".join(" %s = %s\n" % kv for kv in consts.items())
+    r = run_tlc(scratch, "Gen" + base, cfg, env={"VERIF_OUT": out}, workers=1, timeout=timeout,
+                name="gen-" + base, files={"Gen%s.tla" % base: gen_module(base, expr)})
+    if not r["ok"] or not os.path.exists(out):
+        raise Infra("case generation from %s failed:\n%s" % (base, r["stdout"][-3000:]))
+    return out, r
+
+
+def monitor_cases(scratch, base, trace_file, chk="Chk", name=None, timeout=1800):
+    """B-mon for the tabular specifications."""
+    out = scratch.path((name or base) + ".out.json")
+    if os.path.exists(out):
+        os.remove(out)
+    r = run_tlc(scratch, "Trace" + base, "SPECIFICATION TraceSpec\nCHECK_DEADLOCK FALSE\n",
+                env={"VERIF_TRACE": trace_file, "VERIF_OUT": out}, workers=1, timeout=timeout,
+                name=name or ("mon-" + base), files={"Trace%s.tla" % base: stateless_trace_module(base, chk)})
+    if not r["ok"] or not os.path.exists(out):
+        raise Infra("trace monitor for %s failed:\n%s" % (base, r["stdout"][-3000:]))
+    j = json.load(open(out))
+    nlines = sum(1 for _ in open(trace_file))
+    if j["consumed"] != nlines:
+        raise Infra("trace monitor consumed %d of %d records" % (j["consumed"], nlines))
+    j["tlc_states"] = r["states"]
+    j["tlc_generated"] = r["generated"]
+    return j
